@@ -1683,3 +1683,56 @@ Fixpoint buf_run (b : outbuf) (ops : list bop) : bres :=
   | [] => BOk b
   | op :: rest => match buf_apply b op with BOk b1 => buf_run b1 rest | other => other end
   end.
+
+(* ================================================================== when is a single step of the pinned tree harmless? *)
+(* The pinned tree differs from the patched one only in what happens at the END of a single step:
+   (1) the finished segment is popped WITHOUT the do-loop bookkeeping, (2) `exit` does not pop the word.
+   `end_of_step_plain m2`: popping the finished segment of m2 involves no do-loop bookkeeping (or nothing is popped). *)
+Definition end_of_step_plain (p : prog) (t : Z) (m2 : machine) : bool :=
+  match segment_done p m2 with
+  | Ok true => negb (depth m2 =? t) &&
+               match m_dos m2 with
+               | (dd, _, _) :: _ => negb (abs_depth dd =? depth m2 - 1)      (* the segment is not a do-loop body *)
+               | [] => true
+               end
+  | _ => true
+  end.
+
+(* follows the control flow of internal_run in single-step mode up to the instruction the step executes *)
+Fixpoint step_clean (fuel : nat) (p : prog) (e : env) (t : Z) (m : machine) : bool :=
+  match fuel with
+  | O => true
+  | S f =>
+    if depth m =? t then true
+    else match segment_done p m with
+         | Ok true => match pop_incr m with Ok (Continue, m1) => step_clean f p e t m1 | _ => true end
+         | Ok false =>
+           match fetch_instr p m with
+           | Ok (LoopEnd m1) => step_clean f p e t m1
+           | Ok (Instr bytecode m1) =>
+             if bytecode =? CODE_EXIT then false
+             else match exec_op true true p e m1 bytecode with
+                  | Ok (Continue, m2) => end_of_step_plain p t m2
+                  | _ => true
+                  end
+           | _ => true
+           end
+         | _ => true
+         end
+  end.
+
+Definition api_step_clean (p : prog) (e : env) (m : machine) : bool :=
+  match m_targets m with
+  | t :: _ => step_clean (step_fuel m) p e t m
+  | [] => true
+  end.
+
+(* every one of the next k (guarded, patched) steps is harmless on the pinned tree *)
+Fixpoint clean_run (k : nat) (p : prog) (e : env) (m : machine) : bool :=
+  match k with
+  | O => true
+  | S k' => if can_go m then
+              api_step_clean p e m &&
+              match api_step true p e m with Ok m1 => clean_run k' p e m1 | _ => true end
+            else true
+  end.
